@@ -339,6 +339,78 @@ def run_emptiness(ctx):
     return n
 
 
+CALL_BODIES = {
+    'indep': '%p exists or %p !exists\n  Settings.Mode == "strict"',
+    'guarded': 'when %p == %q {\n    Settings.Level >= 2\n  }',
+    'size': '%p.Size >= 10',
+    'empty': '%p empty',
+    'not_empty': '%p !empty\n  %q exists',
+    'some_tag': 'some %p.Tags[*] == %q',
+    'block': '%p {\n    Size exists\n  }',
+    'only_q': '%q == "strict"',
+}
+CALL_ARGS = ["Resources.*[ Type == 'Custom::Thing' ]", 'Resources.*', "Resources.*[ Type == 'AWS::S3::Bucket' ].Properties", 'Settings.Mode', 'Missing.path', '"strict"', 'Settings', 'Resources.*.Properties.Tags[*]']
+CALL_DOCS = [
+    {'Settings': {'Mode': 'strict', 'Level': 3}, 'Resources': {'b': {'Type': 'AWS::S3::Bucket', 'Properties': {'Size': 50, 'Tags': ['strict', 'x']}}}},
+    {'Settings': {'Mode': 'lax', 'Level': 1}, 'Resources': {'b': {'Type': 'AWS::S3::Bucket', 'Properties': {'Size': 5, 'Tags': []}}, 'c': {'Type': 'Custom::Thing', 'Size': 20}}},
+    {'Settings': {'Mode': 'lax', 'Level': 1}, 'Resources': {}},
+    {'Settings': {'Mode': 'strict'}, 'Resources': {'c': {'Type': 'Custom::Thing', 'Properties': {'Size': 1}}}},
+]
+
+
+def run_calls(ctx):
+    """directed: a call `f(A, B)` against the body of f with the parameters bound by rule-level `let`s to the same arguments
+    (the statement: a call is its body with the parameters replaced by the arguments), for bodies that ignore a parameter, are
+    guarded by a condition that does not hold, test emptiness, iterate - and arguments that select nothing, one value, many,
+    an unresolved path, a literal. Also as an alternative of an or-line and under a when condition."""
+    import itertools
+    pairs, meta = [], []
+    combos = list(itertools.product(sorted(CALL_BODIES), range(len(CALL_ARGS)), range(len(CALL_ARGS))))
+    rng = random.Random(ctx.seed * 977 + 15)
+    if ctx.tier != 'thorough':
+        must = [c for c in combos if c[1] in (0, 4) or c[2] in (0, 5)]
+        combos = [c for i, c in enumerate(must) if i % 2 == ctx.seed % 2] + rng.sample(combos, 40)
+    for body, ai, bi in combos:
+        a, b = CALL_ARGS[ai], CALL_ARGS[bi]
+        for site, call_t, let_t in (
+                ('line', 'rule f(p, q) {\n  %s\n}\nrule r {\n  f(%s, %s)\n}\n', 'rule r {\n  let p = %s\n  let q = %s\n  %s\n}\n'),
+                ('or', 'rule f(p, q) {\n  %s\n}\nrule r {\n  Settings.Level == 0 or\n  f(%s, %s)\n}\n', None)):
+            call = call_t % (CALL_BODIES[body], a, b)
+            if let_t is not None:
+                ref = let_t % (a, b, CALL_BODIES[body])
+            else:
+                # the same call on a line of its own decides the alternative: PASS iff the call passes (Level == 0 never holds)
+                ref = 'rule f(p, q) {\n  %s\n}\nrule r {\n  f(%s, %s)\n}\n' % (CALL_BODIES[body], a, b)
+            for d in CALL_DOCS:
+                pairs.append((call, json.dumps(d))); meta.append((body, a, b, site, 'call'))
+                pairs.append((ref, json.dumps(d))); meta.append((body, a, b, site, 'ref'))
+    outs, raw = e2e.pair_outcomes(pairs, ctx.wd, 'c15calls', loader='cli')
+    n = 0
+    for i in range(0, len(pairs), 2):
+        body, a, b, site, _ = meta[i]
+        oa, sa = statuses(outs[i], raw[i])
+        ob, sb = statuses(outs[i + 1], raw[i + 1])
+        if oa in ('PANIC', 'ABORT') or ob in ('PANIC', 'ABORT'):
+            continue
+        n += 1
+        info = {'class': 'abstraction', 'kind': 'call vs body (%s, %s)' % (body, site), 'rules': pairs[i][0], 'variant': pairs[i + 1][0], 'data': pairs[i][1]}
+        ra = (sa or {}).get('r')
+        rb = (sb or {}).get('r')
+        if site == 'or' and ra is not None and rb is not None:
+            # FAIL and SKIP of the call both leave the or-line without a PASS: compare PASS-ness only
+            ra = ['PASS' if x == 'PASS' else 'not-PASS' for x in ra]; rb = ['PASS' if x == 'PASS' else 'not-PASS' for x in rb]
+            if oa not in ('PASS', 'FAIL', 'SKIP') or ob not in ('PASS', 'FAIL', 'SKIP'):
+                continue
+        elif oa != ob:
+            ctx.failing('call f(%s, %s) with body `%s`: file outcome %s, the body with its parameters bound by let gives %s' % (a, b, body, oa, ob), info, found=True)
+            continue
+        if ra != rb:
+            ctx.failing('call f(%s, %s) with body `%s` (%s): rule r is %s, the body with its parameters bound by let gives %s' % (a, b, body, site, ra, rb), info, found=True)
+    ctx.coverage['call_scenarios'] = n
+    ctx.coverage['evaluations'] += len(pairs)
+    return n
+
+
 def run(ctx):
     ctx.build()
     pr = ctx.proofs('C15')
@@ -369,6 +441,7 @@ def run(ctx):
     ctx.coverage['correspondence_verdicts'] = stats
     ctx.coverage['memo_free_verdicts'] = pstats
     n += run_shadowing(ctx)
+    n += run_calls(ctx)
     n += run_emptiness(ctx)
     ctx.coverage['distinct_nontrivial'] = n
     ctx.coverage['rule'] = ('variant = generated program with one abstraction step (rhs literal/query -> %v at block, rule or file level; lhs query -> %v; unused variables at every '
